@@ -343,6 +343,70 @@ def opt_one(job):
     return probs
 
 
+def text_specials(res, tier, work, rnd):
+    """Workspaces below the cell abstraction, from the hunk-level universe (MC_Diff: all small edit scripts A -> B with
+    their canonical hunks): failing and fuzzy pushes in which the failure hints (diagnostics.rs) have something to say.
+      (a) one patch on a perturbed file: last lines missing (the hunk matches the tail and runs past the end), a
+          context line corrupted, first line missing, empty file;
+      (b) a chain: p0 (A -> B) applies; p1 has two sections for the file: B -> C with one hunk spoilt (fails, the
+          others apply) and a second section that inserts a line at the top (shifts what the first applied)."""
+    import p_hunks, render
+    out = os.path.join(work, 'diag.tlc')
+    consts = {'Sym': '{"a","b"}', 'MaxOps': 4 if tier == 'quick' else 5, 'MaxChanges': 2, 'MaxCtx': 2, 'EmitCases': 'TRUE', 'WithNoEol': 'FALSE'}
+    st = tlc('MC_Diff', constants=consts, cfg_body=p_hunks.DIFF_CFG, out=out, tag='diag-universe')
+    res.add_tlc(st, 'diag-universe/MC_Diff')
+    cases = list(tlc_json_lines(out))
+    os.unlink(out)
+    fb = lambda lines: render.file_bytes(lines, 0)
+
+    def patch_of(hs, spoil=None):
+        body = b''
+        for i, h in enumerate(hs):
+            if i == spoil:
+                h = dict(h, pre=['z'] + h['pre'][1:]) if h['pre'] else dict(h, **{'del': ['z'] + h['del'][1:]}) if h['del'] else dict(h, post=['z'] + h['post'][1:])
+            body += render.hunk_text(h, 0)
+        return b'--- a/f\n+++ b/f\n' + body
+    modify = lambda hs: hs and not (len(hs) == 1 and not hs[0]['pre'] and not hs[0]['post'] and (not hs[0]['del'] or not hs[0]['ins']))
+    single = []
+    for case in cases:
+        for c in (1, 2):
+            hs = case['canon'][c]
+            if not modify(hs):
+                continue
+            A = list(case['A'])
+            for F in (A[:-1], A[:-2], A[1:], [], ['z'] + A[1:], A[:-1] + ['z']):
+                if F != A:
+                    single.append({'f': fb(F), 'patches/p1.patch': patch_of(hs), 'series': b'p1.patch\n'})
+    byA = {}
+    for case in cases:
+        byA.setdefault(tuple(case['A']), []).append(case)
+    chains = []
+    for case1 in cases:
+        if not modify(case1['canon'][1]):
+            continue
+        for case2 in byA.get(tuple(case1['B']), []):
+            for c in (0, 1):
+                hs = case2['canon'][c]
+                if len(hs) < 2 or not modify(hs):
+                    continue
+                for spoil in range(len(hs)):
+                    part = list(case1['B'])
+                    for i in reversed(range(len(hs))):
+                        if i != spoil:
+                            h = hs[i]
+                            at = h['os'] + len(h['pre'])
+                            part[at:at + len(h['del'])] = h['ins']
+                    if not part:
+                        continue
+                    sec2 = b'--- a/f\n+++ b/f\n@@ -1,1 +1,2 @@\n+n\n ' + fb(part[:1])
+                    chains.append({'f': fb(case1['A']), 'patches/p0.patch': patch_of(case1['canon'][1]),
+                                   'patches/p1.patch': patch_of(hs, spoil) + sec2, 'series': b'p0.patch\np1.patch\n'})
+    na, nb = (260, 160) if tier == 'quick' else (4000, 3000)
+    picked = rnd.sample(single, min(len(single), na)) + rnd.sample(chains, min(len(chains), nb))
+    res.cov['parts']['diag-universe/MC_Diff'].update({'single_patch_workspaces': len(single), 'chain_workspaces': len(chains), 'pushed': len(picked)})
+    return picked
+
+
 def check_c14(prop, tier):
     res = Result(prop, tier)
     work = scratch(prop)
@@ -386,6 +450,8 @@ def check_c14(prop, tier):
         rep2 = b'x\n' * 6 + b'y\n' + b'x\n' * 6
         rep2_patch = b'--- a/r.c\n+++ b/r.c\n@@ -5,5 +5,5 @@\n x\n x\n-y\n+z\n x\n x\n'
         special.append(({'tree0': empty_tree, 'series': []}, {'r.c': rep2, 'patches/r.patch': rep2_patch, 'series': b'r.patch\n'}))
+        for extra in text_specials(res, tier, work, rnd):
+            special.append(({'tree0': empty_tree, 'series': []}, extra))
         cfg0 = {'backup': 'onfail', 'win': 100, 'dry': False}
         for sc, extra in special:
             for t in (1, 2):
